@@ -40,6 +40,8 @@ var corpus = []string{
 	`local t = {}; emit(select("#", rawset(t, "k", 1)), rawset(t, "j", 2) == t); emit(rawset(rawset({}, 1, "a"), 2, "b")[1]); local memo = setmetatable({}, {__index = function(self, k) emit("miss", k) return rawset(self, k, k * 2)[k] end}); emit(memo[21], memo[21], rawget(memo, 21))`,
 	// setmetatable with the second argument missing is an error and changes nothing (luaL_argcheck "nil or table expected")
 	`local t = setmetatable({}, {__index = function(t, k) return "served" end}); emit(pcall(setmetatable, t) == false, t.x); emit(pcall(function() return setmetatable(t) end) == false, t.y); setmetatable(t, nil); emit(t.z)`,
+	// the string metatable is a separate table {__index = string}: a field stored in the library table is not a handler
+	`string.__add = function(a, b) emit("hijacked") return "h" end; string.__call = function() emit("hijacked-call") return "c" end; emit(pcall(function() return "abc" + 1 end)); emit(pcall(function() return ("abc")(1) end)); emit(getmetatable("") == string, rawget(string, "__index") == nil, getmetatable("").__index == string); emit(("x"):rep(2), ("abc"):len()); string.__add = nil; string.__call = nil`,
 	// fixed 5c2f2ce: a handler that is a callable table is called (any non-nil handler is)
 	`local H = setmetatable({}, {__call = function(self, a) emit("H", type(self), type(a)) return "handled" end}); local mt = {__add = H, __sub = H, __concat = H, __unm = H, __eq = H, __lt = H, __le = H, __tostring = H}; local x, y = setmetatable({}, mt), setmetatable({}, mt); emit(x + 1, 1 - x, x .. "a", "a" .. x, -x); emit(x == y, x ~= y, x < y, x <= y, x > y); emit(tostring(x))`,
 	// fixed 46ac53a: unary minus converts a numeric string before looking for __unm
